@@ -335,11 +335,101 @@ func c16ParseOnce(dir string, rq c16Req) (rs c16Resp) {
 			}
 		}
 	}()
-	tf := parse.NewParse(opt, file, make([]string, 0))
-	if c16HasSeveralModules(tf) {
-		return c16Resp{Class: "multi", Ast: B(c16SerModule(&tf.Module)), Wf: c16AstDefect(&tf.Module)}
+	// parse.VerifParse = NewParse, but the file node is handed back on a diagnostic as well (the graph of included
+	// files the parser has built is inspected on accepted and on rejected input)
+	tf, diag := parse.VerifParse(opt, file)
+	cyc := ""
+	if tf != nil {
+		cyc = c16GraphCycle(tf)
 	}
-	return c16Resp{Class: "ok", Ast: B(c16SerModule(&tf.Module)), Wf: c16AstDefect(&tf.Module), Deps: c16Deps(&tf.Module)}
+	if diag != "" {
+		return c16Resp{Class: "err", Msg: diag, Wf: cyc}
+	}
+	wf := c16AstDefect(&tf.Module)
+	if cyc != "" {
+		wf = cyc
+	}
+	if cyc == "" && c16HasSeveralModules(tf) {
+		return c16Resp{Class: "multi", Ast: B(c16SerModule(&tf.Module)), Wf: wf}
+	}
+	if cyc != "" {
+		return c16Resp{Class: "multi", Ast: B(c16SerModule(&tf.Module)), Wf: wf}
+	}
+	return c16Resp{Class: "ok", Ast: B(c16SerModule(&tf.Module)), Wf: wf, Deps: c16Deps(&tf.Module)}
+}
+
+// c16GraphCycle: the graph of file nodes (TarsFile.IncTarsFile: included files, and the further modules of a file
+// with the snapshot of the first module each of them sees) must be acyclic: FindTNameType / FindEnumName walk it
+// recursively and stop only on a hit. Depth-first search with an on-path mark.
+func c16GraphCycle(root *ast.TarsFile) string {
+	const onPath, done = 1, 2
+	mark := map[*ast.TarsFile]int{}
+	var walk func(n *ast.TarsFile) string
+	walk = func(n *ast.TarsFile) string {
+		switch mark[n] {
+		case onPath:
+			return fmt.Sprintf("the include graph has a cycle through the node of module %q (%s)", n.Module.Name, filepath.Base(n.Source))
+		case done:
+			return ""
+		}
+		mark[n] = onPath
+		for _, c := range n.IncTarsFile {
+			if c == nil {
+				continue
+			}
+			if s := walk(c); s != "" {
+				return s
+			}
+		}
+		mark[n] = done
+		return ""
+	}
+	if s := walk(root); s != "" {
+		return s
+	}
+	return c16GraphShape(root)
+}
+
+// c16GraphShape: the graph of one file with several (differently named) modules is the one of Idl/IncGraph.v
+// [children false]: the j-th further module's node N_j has as first child a node S_j that is not the file's own node
+// but carries the first module, with children N_1 .. N_{j-1}; then the included files; the file's node has N_1 .. N_k
+// and then the included files.
+func c16GraphShape(root *ast.TarsFile) string {
+	var further []*ast.TarsFile
+	names := map[string]bool{root.Module.Name: true}
+	for _, c := range root.IncTarsFile {
+		if c != nil && c.Source == root.Source {
+			if names[c.Module.Name] {
+				return "" // same module name again: merged into the earlier node, another shape
+			}
+			names[c.Module.Name] = true
+			further = append(further, c)
+		}
+	}
+	for j, n := range further {
+		if root.IncTarsFile[j] != n {
+			return fmt.Sprintf("include graph: the further modules are not the first children of the file's node (module %q)", n.Module.Name)
+		}
+		if len(n.IncTarsFile) == 0 {
+			return fmt.Sprintf("include graph: the node of module %q does not see the first module", n.Module.Name)
+		}
+		s := n.IncTarsFile[0]
+		if s == root {
+			return fmt.Sprintf("include graph: the node of module %q holds the file's live node instead of a copy of it", n.Module.Name)
+		}
+		if s.Module.Name != root.Module.Name || s.Source != root.Source {
+			return fmt.Sprintf("include graph: the first child of the node of module %q is not the first module", n.Module.Name)
+		}
+		if len(s.IncTarsFile) != j {
+			return fmt.Sprintf("include graph: the copy seen by module %q has %d children, %d further modules were recorded before it", n.Module.Name, len(s.IncTarsFile), j)
+		}
+		for i := 0; i < j; i++ {
+			if s.IncTarsFile[i] != further[i] {
+				return fmt.Sprintf("include graph: the copy seen by module %q does not list the further modules recorded before it", n.Module.Name)
+			}
+		}
+	}
+	return ""
 }
 
 // a further module of the same file is recorded like an included file, with the file's own source name
@@ -732,7 +822,12 @@ func c16Main(a Args) {
 			if strings.Contains(rs[i].Wf, "imports") {
 				sig = "tars2go/parse/defining-module-not-imported"
 			}
-			res.Failures = append(res.Failures, Failure{Sig: sig, Desc: fmt.Sprintf("parse.NewParse accepts %q but %s", c16Trunc(string(c.Input), 200), rs[i].Wf), Replay: *c})
+			if strings.Contains(rs[i].Wf, "include graph has a cycle") {
+				sig = "tars2go/parse/include-graph-cyclic"
+			} else if strings.HasPrefix(rs[i].Wf, "include graph:") {
+				sig = "tars2go/parse/include-graph-shape"
+			}
+			res.Failures = append(res.Failures, Failure{Sig: sig, Desc: fmt.Sprintf("parse.NewParse (outcome %s) on %q: %s", c.Class, c16Trunc(string(c.Input), 200), rs[i].Wf), Replay: *c})
 		}
 		switch c.Class {
 		case "hang":
@@ -853,6 +948,13 @@ var c16ScenarioList = []c16Scenario{
 	{Name: "second-module-undefined-type", Main: `module A { }; module B { struct T { 0 require Nope s; }; };`, Class: "err"},
 	{Name: "second-module-redefinition", Main: `module A { }; module B { struct T { 0 require int a; }; struct T { 0 require int b; }; };`, Class: "err"},
 	{Name: "same-module-three-times", Main: `module A { struct S { 0 require int x; }; }; module A { struct T { 0 require int y; }; }; module A { struct U { 0 require T t; }; };`, Class: "multi", Has: []string{"1:A[1:S["}},
+	{Name: "first-of-two-modules-uses-included-type", Main: `#include "dep.tars" module A { struct SA { 0 require D::T p; 1 optional D::E e = B; }; }; module B { struct SB { 0 require A::SA a; }; };`,
+		Files: map[string]string{"dep.tars": `module D { enum E { A, B }; struct T { 0 require int x; }; };`}, Class: "multi", Has: []string{"n4:D::TS", "5:D.E_B"}},
+	{Name: "first-of-two-modules-undefined-type", Main: `module A { struct SA { 0 require Nope p; }; }; module B { struct SB { 0 require int x; }; };`, Class: "err"},
+	{Name: "first-of-two-modules-undefined-default", Main: `module A { enum E { X }; struct SA { 0 optional E e = NOPE; }; }; module B { };`, Class: "err"},
+	{Name: "first-of-three-modules-uses-third", Main: `module A { struct SA { 0 require C::T p; }; }; module B { }; module C { struct T { 0 require int x; }; };`, Class: "multi", Has: []string{"n4:C::TS"}},
+	{Name: "second-of-three-modules-undefined-type", Main: `module A { }; module B { struct SB { 0 require A::Nope p; }; }; module C { };`, Class: "err"},
+	{Name: "third-module-undefined-type-after-include", Main: `#include "dep.tars" module A { }; module B { }; module C { struct SC { 0 require D::Nope p; }; };`, Files: map[string]string{"dep.tars": `module D { };`}, Class: "err"},
 	{Name: "include-in-the-middle", Main: `module A { struct S { 0 require int x; }; }; #include "dep.tars"`, Files: map[string]string{"dep.tars": `module D { };`}, Class: "ok"},
 }
 
@@ -876,6 +978,9 @@ func c16Scenarios(base string, res *Result) {
 		}
 		hist[got]++
 		rep := c16Case{Kind: "scenario:" + sc.Name, Input: B(sc.Main), Text: sc.Main, Class: got, Msg: rs[i].Msg}
+		if strings.Contains(rs[i].Wf, "include graph has a cycle") {
+			res.Failures = append(res.Failures, Failure{Sig: "tars2go/parse/include-graph-cyclic", Desc: fmt.Sprintf("files %q (+ %d more): %s", sc.Main, len(sc.Files), rs[i].Wf), Replay: rep})
+		}
 		if got != sc.Class {
 			res.Failures = append(res.Failures, Failure{Sig: "tars2go/parse/scenario/" + sc.Name, Desc: fmt.Sprintf("files %q (+ %d more): expected outcome %s, observed %s %s", sc.Main, len(sc.Files), sc.Class, got, c16Trunc(rs[i].Msg, 200)), Replay: rep})
 			continue
